@@ -212,6 +212,22 @@ def l2_backpressure(work, tier):
     return fails
 
 
+def frame_workers(work, tier):
+    """C07: the frame worker of an ended session stops, whatever the scheduling (harness `workers`)"""
+    rounds = 60 if tier == "quick" else 400
+    txt = work.run_harness(["workers", "-rounds", str(rounds)], timeout=600)
+    rows = [json.loads(l) for l in txt.splitlines() if l.startswith("{")]
+    fails = []
+    for r in rows:
+        if r.get("note"):
+            raise Inconclusive("frame worker stage: " + r["note"])
+        if r["workers_left"] > 0:
+            fails.append(dict(hid="workers-" + r["pattern"], sig=dict(inv="frame_worker_stops", step="workers", kind=r["pattern"], ret="-"),
+                              rec=dict(i=-1, **r), scenario=dict(hid="workers-" + r["pattern"], stage="workers", rounds=rounds, result=r)))
+    work.log("frame workers: %s" % ", ".join("%s %d sessions, %d left" % (r["pattern"], r["sessions"], r["workers_left"]) for r in rows))
+    return fails, rows
+
+
 def trace_stats(trace_files):
     """counts used for the vacuity gates and the evidence"""
     st = dict(histories=0, steps=0, kinds={}, refused=0, not_joined=0, relays=0, departures=0, departures_with_entities=0,
@@ -414,7 +430,7 @@ def run_relay_check(work, prop, tier, replay=None):
             for f in futs:
                 fails += f.result()
     conc = None
-    if prop in ("C01", "C02", "C07", "C10") and not replay:
+    if prop in ("C01", "C02", "C03", "C07", "C10", "C12") and not replay:
         import conc_check
         conc = conc_check.run_conc(work, prop, tier)
         work.log("schedules: %d scenarios, %d schedules on the real handlers, %d distinct outcomes, %d failing" % (
@@ -430,6 +446,30 @@ def run_relay_check(work, prop, tier, replay=None):
         # wire level: relays to a recipient whose connection is backed up must still arrive exactly once, in order
         l2f = l2_backpressure(work, tier)
         for f in l2f:
+            fails.append(f)
+            hist_by_id[f["hid"]] = f["scenario"]
+    rconc = None
+    if prop in ("C01", "C07", "C10", "C11") and not replay:
+        # lock-grain specification (RelayConc.tla): exhaustive TLC, witnesses of the listed findings forced on the real
+        # handlers, generated and random schedules validated by RelayConcTrace
+        import relayconc_check
+        rconc = relayconc_check.stage(work, tier, work.seed, variants=(False, True) if prop == "C01" else (False,), witnesses=(prop == "C01"))
+        for f in rconc["fails"]:
+            if prop not in relayconc_check.OWNER.get(f["inv"], []):
+                continue
+            hid = "relayconc-%s" % f["cid"]
+            fails.append(dict(hid=hid, sig=dict(inv=f["inv"], step="RelayConc", kind=str(f["cid"]).split("-")[0], ret=f.get("ret", "-")), rec=dict(i=-1)))
+            hist_by_id[hid] = dict(hid=hid, stage="RelayConc (harness l1m)", invariant=f["inv"], scenario=f.get("scenario"), note=f.get("note"))
+        if prop == "C01":
+            for k in rconc["known"]:
+                for sym in k["symptoms"]:
+                    hid = "relayconc-%s" % k["cid"]
+                    fails.append(dict(hid=hid, sig=dict(inv="L_Conv", step="RelayConc", symptom=relayconc_check.SYMPTOM_NAME[sym]), rec=dict(i=-1)))
+                    hist_by_id[hid] = dict(hid=hid, stage="RelayConc (harness l1m)", invariant="L_Conv", symptoms=k["symptoms"], scenario=k.get("scenario"))
+    workers_rows = None
+    if prop == "C07" and not replay:
+        wf, workers_rows = frame_workers(work, tier)
+        for f in wf:
             fails.append(f)
             hist_by_id[f["hid"]] = f["scenario"]
     extra = None
@@ -490,6 +530,15 @@ def run_relay_check(work, prop, tier, replay=None):
     if wire:
         coverage["wire_level"] = wire
         coverage["traces_validated_against_impl"] += wire["histories"]
+    if workers_rows:
+        coverage["frame_workers"] = workers_rows
+    if rconc:
+        coverage["lock_grain"] = dict(exhaustive=rconc["model"], witnesses_found_by_tlc=rconc["witnesses"], real_runs=rconc["stats"],
+                                      runs_the_specification_does_not_explain=rconc["lost"][:20],
+                                      listed_divergences_reproduced=sorted({s_ for k in rconc["known"] for s_ in k["symptoms"]}))
+        coverage["states"] += sum((m.get("distinct") or 0) for m in rconc["model"])
+        coverage["transitions"] += sum((m.get("generated") or 0) for m in rconc["model"])
+        coverage["traces_validated_against_impl"] += sum(v.get("runs", 0) for v in rconc["stats"].values())
     if conc:
         coverage["schedules"] = dict(scenarios=conc["scenarios"], schedules_executed_on_real_code=sum(x["schedules"] for x in conc["summaries"]),
                                      distinct_outcomes_validated=conc["outcomes"], deadlocks=sum(x["deadlocks"] for x in conc["summaries"]),
